@@ -1,5 +1,5 @@
 """C11 -- same seed, same result, however the likelihood is evaluated or observed."""
-from ..effects import rule_F1, rule_F2, rule_F3, rule_F4, rule_F5, rule_F7, rule_F8, rule_G1, rule_F9, rule_G3
+from ..effects import rule_F1, rule_F2, rule_F3, rule_F4, rule_F5, rule_F7, rule_F8, rule_G1, rule_F9, rule_G3, rule_F10
 
 LEVEL_TEXT = ('Static effect analysis over the resolved call graph: purity of the 12 read-only '
               'accessors, observational independence of verbose / filepath / vectorized / pool, '
@@ -16,6 +16,7 @@ def run(ctx):
     rule_F7(ctx)      # scalar vs vectorised must not differ through in-place user code
     rule_F8(ctx)      # ... nor through shape-dependent arithmetic in the transform
     rule_G1(ctx)      # ... nor on what another sampler did earlier in the process
+    rule_F10(ctx)     # vectorised / pooled evaluation never meets the worker-only stub
     k3 = rule_G3(ctx)
     ctx.require(k3 >= 3, 'G3 found only %d optional constructor arguments (floor 3)' % k3)
     rule_F9(ctx)      # ... nor on arrays changed behind the caller's back
